@@ -1,6 +1,7 @@
 package rules
 
 import (
+	"fmt"
 	"go/token"
 	"go/types"
 	"sort"
@@ -469,8 +470,39 @@ func c18RetryState(p *core.Prog, r *core.Report) {
 	}
 }
 
+// c18TracingKeys: the tracing keys a client injects into the application
+// headers ($tracing$...) are transport data: the server strips them before the
+// headers become the handler's context, whether or not its own tracer could
+// read them. On every path from the tracer's Extract to a return of
+// ExtractInboundSpan the carrier's RemoveTracingKeys is called.
+func c18TracingKeys(p *core.Prog, r *core.Report) {
+	f := mustFunc(p, r, "", "", "ExtractInboundSpan")
+	if f == nil {
+		return
+	}
+	isRemove := func(i ssa.Instruction) bool {
+		_, ok := core.IsCall(i, "tracingHeadersCarrier.RemoveTracingKeys")
+		return ok
+	}
+	n := 0
+	core.EachInstr(f, func(i ssa.Instruction) {
+		c, ok := i.(*ssa.Call)
+		if !ok || !c.Call.IsInvoke() || c.Call.Method.Name() != "Extract" {
+			return
+		}
+		n++
+		res := core.ReachAvoiding(f, c, core.IsReturn, isRemove, nil)
+		r.Check(!res.Found, "C18-R4", fname(f), fmt.Sprintf("tracing keys removed from the headers after Extract #%d, whatever its result", n), p.Pos(c.Pos()),
+			"every path from Extract to a return passes RemoveTracingKeys", "the handler can see the transport's tracing keys among its application headers (e.g. when the server's tracer cannot read them): "+p.TrailString(res))
+	})
+	if n == 0 {
+		r.Errorf("ExtractInboundSpan: no tracer Extract call found")
+	}
+}
+
 func c18Plumbing(p *core.Prog, r *core.Report) {
 	c18RetryState(p, r)
+	c18TracingKeys(p, r)
 	through := map[string]int{"InjectOutboundSpan": 1}
 	isCtxHeaders := func(v ssa.Value) bool {
 		c, ok := v.(*ssa.Call)
